@@ -65,7 +65,11 @@ Definition check_case (k : case) : bool :=
       md_eqb (v_hdr v) (o_hdr o) && md_eqb (v_tlr v) (o_tlr o) && md_eqb (v_hdr v) (o_hdr_early o) && o_opts_ok o
   | Single http script code res t =>
       let fs := server_emit script code in
-      if http && trailer_unmarshalable script then single_eqb res (match single_recv fs with OneOk _ | OneEOF => OneStatus 2 | r => r end)
+      (* F5b: nothing of the trailer message is written, so the client sees the data frames and then the end
+         of the body: a second message is the library's own Internal, anything else the truncation error
+         (whatever the handler returned) *)
+      if http && trailer_unmarshalable script
+      then single_eqb res (if 2 <=? Z.of_nat (length (datas fs)) then OneStatus 13 else OneStatus 2)
       else single_eqb (single_recv fs) res &&
            (* when the server sent more than one response the client stops at the second one and the
               call fails with the library's own Internal error: the trailers are never read *)
